@@ -4,14 +4,14 @@ from __future__ import annotations
 import ast
 import struct
 
-from sa.astx import NotConst, call_name, src, walk_local
+from sa.astx import NotConst, call_name, lincmp, lin_expect, src, walk_local
 from sa.effects import class_accesses
 from sa.selftest import Mutant, Silent
 from sa.source import class_assigns
 from sa.props._lib_d import (NONNULL, call_nodes, calls_with, const_value_is, handler_names, implied, local_def, path_under, peval,
                              reach_under, self_assigns, slice_parts, succ_of, test_value)
 from sa.props._lib_d import must_pass_under as _must_pass_under
-from sa.props._lib_d import Views
+from sa.props._lib_d import Views, resolve_locals
 from sa.props._lib_d import MiniVM, VMContext, VMError, VMExc, VMObj, VMRaise, VMStub, _NativeRaise
 from sa.source import AnalysisError
 
@@ -19,7 +19,7 @@ PROPERTY = "C47"
 W = "protocols/haproxy/_wrapper.py"
 V1 = "protocols/haproxy/_v1parser.py"
 V2 = "protocols/haproxy/_v2parser.py"
-TECHNIQUE = "CFG evaluation on header prefixes; interpreted multi-call segmentation runs; ordering; tables"
+TECHNIQUE = "CFG ordering, exhaustive length evaluation of the sniff, table agreement; interpreted header segmentations second"
 EXPLANATION = (
     "Decided by interpreting the sources (wrapper, V1Parser, V2Parser, exception classes; no import of twisted) on concrete inputs and comparing "
     "only observable behaviour - getPeer()/getHost(), bytes given to the application, connection closed - with what the PROXY protocol prescribes: "
@@ -35,7 +35,27 @@ EXPLANATION = (
     "constants, allowed v1 protocols, V2 source/destination slots. Informational only: .decode()/int() outside convertError. Not decided: equality of "
     "parsed addresses with the header's for all inputs (sample headers only), V2Parser.parse by evaluation (constantly.Values is outside the "
     "interpreted modules)."
+    " METHODS per clause: first-segment refusal = finite-exhaustive over all segment lengths below the largest length threshold (content tests not evaluated) plus the "
+    "interpreted prefixes as witness layer; signature slice widths, v2 completeness guard (lincmp normal form), terminator searched in the accumulated buffer, wrapper "
+    "ordering, who-may-write and all tables = structural (each abstains with a note when the shape is not recognised); version dispatch, garbage refusal, feed step "
+    "functions, V1Parser.parse, getPeer/getHost and segmentation invariance = BOUNDED evidence only (sample headers; a structural decider exists only for the parts named above)."
 )
+RULE_KINDS = {
+    # CFG ordering in the wrapper on the normalised view (pass-through only once the header is known, only feed()'s remainder forwarded, invalid header
+    # closes and forwards nothing, stored parser not re-sniffed), who-may-write closure, terminator searched in the accumulated buffer (def-use),
+    # lincmp normal form of the v2 completeness guard, table agreement (ADDRESSFORMATS rows / sizes / slice width, signatures and their slice widths,
+    # version / command constants, allowed v1 protocols, v2 source/destination slots)
+    "*": "structural",
+    # every first-segment length below the largest threshold the sniff compares the length with, content tests never evaluated
+    "sniff/short-segment-refused": "finite-exhaustive",
+    # wrapper / parsers interpreted from source on the sample headers (7 valid headers, 5 non-headers, malformed lines), every proper prefix as first
+    # segment, every 2-way and many/all 3-way segmentations with state carried across calls; a verdict about those inputs only
+    "sniff/valid-prefix-rejected": "bounded", "sniff/version-dispatch": "bounded", "sniff/garbage-rejected": "bounded",
+    "v1feed/incomplete-waits": "bounded", "v1feed/completed-header-parsed": "bounded", "v1feed/length-limit": "bounded",
+    "v2feed/incomplete-waits": "bounded", "v2feed/completed-header-parsed": "bounded",
+    "parse/v1-evaluated": "bounded", "parse/v1-invalid-lines-refused": "bounded", "wrapper/address-from-header": "bounded", "wrapper/address-fallback": "bounded",
+    "segmentation/": "bounded",
+}
 ASSUMPTIONS = [
     "transports never deliver an empty segment",
     "sample headers (v1 TCP4/TCP6/UNKNOWN, v2 INET/INET6/UNIX/LOCAL, with and without payload) are representative of the grammar for the sniffing decision, which only looks at the first 16 bytes",
@@ -528,6 +548,99 @@ def check(ctx):
             ok = inl_.permitted(fn_, {"__init__"}) or (inl_.permitted(fn_, {"dataReceived"}) and any(src(a.node) == src(g.node(n).ast) for n in fd))
             ctx.check(ok, "wrapper/proxyinfo-who-may-write", ctx.construct(Q + "_wrapper." + a.func, a.node), "_proxyInfo is set from something other than the parser's result")
     kmin = _evaluated(ctx, K)
+    with ctx.section("sniff, structural layer"):
+        ctx.need(bool(wr), "anchors of HAProxyProtocolWrapper.dataReceived")
+        # (a) first layer: which first-segment LENGTHS are refused without the code ever looking at the segment's content.  The branch decisions of
+        # the normalised view are evaluated for every length below the largest length threshold the function compares with; content tests are not
+        # evaluated at all (paths through them are not followed).  Exhaustive over that length range because the length is only compared with constants.
+        lentxt = f"len({dparam})"
+        thresholds = []
+        content = []
+        for t in g.nodes:
+            if t.kind != "test" or not g.reachable(t.id):
+                continue
+            e = resolve_locals(f, t.ast)
+            txt = src(e)
+            nf = lincmp(e)
+            if nf is not None and set(dict(nf[0])) == {lentxt} and abs(dict(nf[0])[lentxt]) == 1:
+                thresholds.append(abs(nf[1]) + 1)
+            elif dparam in txt.replace(lentxt, ""):
+                content.append(t.id)
+        from sa.props._lib_d import written_names
+        rebound = any(dparam in written_names(st) for st in walk_local(f) if isinstance(st, ast.stmt))
+        if rebound:
+            ctx.note("sniff/short-segment-refused: the received segment is re-bound (joined with buffered bytes?) before it is measured, so its length is no "
+                     "longer the segment's; clause left to sniff/valid-prefix-rejected (interpreted)")
+        elif not thresholds:
+            ctx.note("sniff/short-segment-refused: no length test on the received segment recognised in dataReceived (sniff in a helper that is not inlined?); "
+                     "clause left to sniff/valid-prefix-rejected (interpreted)")
+        else:
+            ks = [k for k in range(1, max(thresholds) + 1)
+                  if reach_under(g, dict(wfacts, **{lentxt: k}), avoid=content + fd) & set(reject)]
+            ctx.check(not ks, "sniff/short-segment-refused", q + (f" | <a first segment of {_ranges(ks)} bytes is refused whatever it contains>" if ks else " | <lengths>"),
+                      f"a first segment of {_ranges(ks)} bytes is refused on its length alone, before any byte of it is compared with a signature: the start of a valid "
+                      "header delivered in a short segment closes the connection (the decision must wait until the discriminating prefix is buffered)",
+                      detail=f"lengths 1..{max(thresholds)} evaluated; length compared only with constants {sorted(set(thresholds))}")
+        # signature slice widths agree with the signature constants (table agreement)
+        nsl = 0
+        for fn in [f] + [m for _, m in _M(ctx, W, "HAProxyProtocolWrapper")]:
+            for cmp_ in (x for x in walk_local(fn) if isinstance(x, ast.Compare) and len(x.ops) == 1 and isinstance(x.ops[0], (ast.Eq, ast.NotEq))):
+                for a_, b_ in ((cmp_.left, cmp_.comparators[0]), (cmp_.comparators[0], cmp_.left)):
+                    key = {"V2Parser.PREFIX": "V2Parser.PREFIX", "V1Parser.PROXYSTR": "V1Parser.PROXYSTR"}.get(src(b_))
+                    sp_ = slice_parts(a_)
+                    if key and sp_ and sp_[1] is None and sp_[2] is not None:
+                        nsl += 1
+                        ctx.check(const_value_is(sp_[2], lambda v, key=key: v == len(K[key])), "sniff/signature-widths", ctx.construct(QW + getattr(fn, "name", "?"), cmp_),
+                                  f"the slice compared with {key} is not len({key}) = {len(K[key])} bytes wide: the signature can never match")
+        if not nsl:
+            ctx.note("sniff/signature-widths: no 'segment[:k] == SIGNATURE' comparison recognised; clause left to sniff/version-dispatch (interpreted)")
+
+    with ctx.section("feed, structural layer"):
+        # V1Parser.feed: the line terminator is searched in the ACCUMULATED buffer, never in the newly fed chunk alone
+        f1 = _F(ctx, V1, "V1Parser.feed")
+        d1 = f1.args.args[1].arg
+        q1 = Q + "_v1parser.V1Parser.feed"
+        searched = []
+        for x in walk_local(f1):
+            if isinstance(x, ast.Compare) and len(x.ops) == 1 and isinstance(x.ops[0], (ast.In, ast.NotIn)) and src(resolve_locals(f1, x.left)) == "self.NEWLINE":
+                searched.append((x, x.comparators[0]))
+            elif isinstance(x, ast.Call) and isinstance(x.func, ast.Attribute) and x.func.attr in ("split", "partition", "find", "index") and x.args \
+                    and src(resolve_locals(f1, x.args[0])) == "self.NEWLINE":
+                searched.append((x, x.func.value))
+        if not searched:
+            ctx.note("v1feed/terminator-searched-in-buffer: no search for self.NEWLINE recognised in V1Parser.feed; clause left to v1feed/* and segmentation/invariant (interpreted)")
+        for x, where in searched:
+            txt = src(resolve_locals(f1, where))
+            only_chunk = txt == d1 or (d1 in txt and "self.buffer" not in txt)
+            ctx.check(not only_chunk, "v1feed/terminator-searched-in-buffer", ctx.construct(q1, x),
+                      "the CRLF that ends the header is looked for in the newly received segment instead of the accumulated buffer: a header cut between CR and "
+                      "LF (or whose CRLF straddles two segments) is never recognised as complete")
+        # V2Parser.feed: the header is complete exactly when len(buffer) >= 16 + length field
+        f2 = _F(ctx, V2, "V2Parser.feed")
+        g2 = ctx.cfg(f2)
+        q2 = Q + "_v2parser.V2Parser.feed"
+        parse2 = call_nodes(g2, "self.parse", "cls.parse", "V2Parser.parse")
+        forms = []
+        for t in g2.nodes:
+            if t.kind != "test" or not g2.reachable(t.id):
+                continue
+            e = resolve_locals(f2, t.ast)
+            nf = lincmp(e)
+            if nf is None or len(dict(nf[0])) != 2 or not any(k.startswith("len(") for k in dict(nf[0])):
+                continue
+            via = {lab: bool(set(g2.reach(succ_of(g2, t.id, lab), edge_ok=lambda a, b, l: l != "exc")) & set(parse2)) for lab in ("T", "F")}
+            if via["T"] != via["F"]:
+                forms.append((t.id, lincmp(e, negate=via["F"])))
+        if not forms or not parse2:
+            ctx.note("v2feed/completeness-normal-form: no 'len(buffer) vs 16 + length field' guard recognised in V2Parser.feed; clause left to v2feed/* (interpreted)")
+        for t, nf in forms:
+            d_ = dict(nf[0])
+            lenk = next(k for k in d_ if k.startswith("len("))
+            other = next(k for k in d_ if k != lenk)
+            ctx.check(d_[lenk] == 1 and d_[other] == -1 and nf[1] == 16, "v2feed/completeness-normal-form", ctx.construct(q2, g2.node(t).ast),
+                      f"a v2 header is handed to parse() exactly when 'len(buffer) - <length field> >= 16'; the guard normalises to {sorted(d_.items())} >= {nf[1]}: "
+                      "a header whose last byte has arrived waits for more data, or an incomplete one is parsed")
+
     with ctx.section("ADDRESSFORMATS"):
         # ================= (c) tables and constants ========================================================================================
         ca2 = class_assigns(ctx.cls(V2, "V2Parser"))
@@ -687,6 +800,12 @@ MUTANTS = [
            "        if len(self.buffer) < size:\n            self.buffer = self.buffer[:16]\n            return (None, None)\n", expect_rule="segmentation/invariant"),
     Mutant("F47u-reverted-protocol-field-needs-a-second-space", V1, "        networkProtocol, _, line = line.partition(b\" \")\n",
            "        with convertError(ValueError, InvalidNetworkProtocol):\n            networkProtocol, line = line.split(b\" \", 1)\n", expect_rule="parse/v1-evaluated"),
+    Mutant("v1-terminator-in-chunk-seen-structurally", V1, "        if len(self.buffer) > 107 and self.NEWLINE not in self.buffer:\n            raise InvalidProxyHeader()\n        lines = (self.buffer).split(self.NEWLINE, 1)\n        if not len(lines) > 1:\n            return (None, None)\n",
+           "        if len(self.buffer) > 107 and self.NEWLINE not in self.buffer:\n            raise InvalidProxyHeader()\n        if self.NEWLINE not in data:\n            return (None, None)\n"
+           "        lines = (self.buffer).split(self.NEWLINE, 1)\n", expect_rule="v1feed/terminator-searched-in-buffer"),
+    Mutant("v2-completeness-guard-off-by-one-seen-structurally", V2, "        if len(self.buffer) < size:\n            return (None, None)", "        if not len(self.buffer) > size:\n            return (None, None)",
+           expect_rule="v2feed/completeness-normal-form"),
+    Mutant("sniff-signature-slice-too-narrow", W, "                and data[:12] == V2Parser.PREFIX", "                and data[:11] == V2Parser.PREFIX", expect_rule="sniff/signature-widths"),
     Mutant("v1-unknown-not-allowed", V1, "    ALLOWED_NET_PROTOS = (\n        TCP4_PROTO,\n        TCP6_PROTO,\n        UNKNOWN_PROTO,\n    )", "    ALLOWED_NET_PROTOS = (\n        TCP4_PROTO,\n        TCP6_PROTO,\n    )",
            expect_rule="v1table/allowed-protocols"),
 ]
